@@ -61,6 +61,7 @@ type op =
 | OGetItem
 | OSetItem
 | ODelItem
+| OGetSlice
 | OGetAttr of nat
 | OSetAttr of nat
 | ODelAttr of nat
